@@ -5,9 +5,9 @@ from harness import core
 from psec import tr31
 
 IDS_OK = ["KS", "T1", "ab", "a7", "A7", "00", "zZ", "PB", "pb"]
-IDS_BAD = ["KSN", "T", "", "**", "K_", "é1", "a b", "ＡＢ", "K٠"]
+IDS_BAD = ["KSN", "T", "", "**", "K_", "é1", "a b", "ＡＢ", "K٠", "K\n", "\nK"]
 DATA_OK = ["", "1", "hello world", " lead", "trail ", "~}|{", "0016", "A" * 300]
-DATA_BAD = ["\x7f", "caf\xe9", "tab\t", "\n", "\x00", " "]
+DATA_BAD = ["\x7f", "caf\xe9", "tab\t", "\n", "\x00", " ", "abc\n", "abc\r", "\nabc"]
 
 
 def gen_ops(rng, n):
